@@ -7,6 +7,8 @@ import OpdaProofs.QuadTail
 import OpdaProofs.QuadStop
 import OpdaProofs.QuadNoisyQtc
 import OpdaProofs.MaxOfN
+import OpdaProofs.QuadNoisyCurves
+import OpdaProofs.QuadNoisyReal
 /-!
 # C08 — parametric tuning curves are quantile and mean of the best of `n` draws
 
@@ -22,8 +24,10 @@ What is **not** a theorem, and why: the accuracy clause of the integrated averag
 (`100·max(atol, 1e-6·scale)`).  `stop_rule_not_a_bound` exhibits a continuous CDF for which the loop stops at
 its first permitted round with an error 30 000 times the tolerance, so no such theorem exists for the
 documented algorithm; `navg_returns_trapezoid_partial` states all that the stopping rule does give.
-The two known defects are theorems of the model: F5 (`navg_point_mass_never_stops`) and — in
-`Props/C09.lean` — the location dependence behind F4.
+The two defects found here were repaired in /repo (`fix:` 867c66b — F4, the `1[y>0]` jump inside the range of
+integration — and fd4085d — F5, the point mass never returned); the model is the repaired loop.
+`navg_point_mass_returns` is the theorem that F5 is gone, `navg_fix_conservative` relates the repaired integrand
+to the legacy one, and `Props/C09.lean` has the equivariance the legacy integrand lacked.
 -/
 namespace Opda.Props.C08
 open Opda
@@ -126,24 +130,33 @@ theorem loop_state_is_trapezoid (g : ℝ → ℝ) (lo hi : ℝ) (i : ℕ) :
   rw [iter_eq, Trap.loop_eq_trap]
 
 /-- **T4 (tail bookkeeping)**: for `G = 0` up to `lo`, `G = 1` beyond `hi`, on any window `[−M, M]` containing
-`lo`, `hi` and `0`: `∫ (1[y>0] − G) = max(0,lo) + min(0,hi) + ∫_lo^hi (1[y>0] − G)` -/
+`lo`, `hi` and `0`: `E = ∫ (1[y>0] − G) = lo + ∫_lo^hi (1 − G)` — the value the code returns is `lo +` the
+trapezoid sum of `1 − G` -/
 theorem tail_terms (G : ℝ → ℝ) (lo hi M : ℝ) (hlh : lo ≤ hi) (hM1 : -M ≤ lo) (hM2 : hi ≤ M) (hM : 0 ≤ M)
     (hG0 : ∀ y, y ≤ lo → G y = 0) (hG1 : ∀ y, hi < y → G y = 1)
-    (hint : IntervalIntegrable (fun y => ind TrapLoop.cast y - G y) MeasureTheory.volume lo hi) :
-    ∫ y in (-M)..M, (ind TrapLoop.cast y - G y)
-      = tail TrapLoop.cast lo hi + ∫ y in lo..hi, (ind TrapLoop.cast y - G y) :=
-  tail_bookkeeping G lo hi M hlh hM1 hM2 hM hG0 hG1 hint
+    (hint : IntervalIntegrable G MeasureTheory.volume lo hi) :
+    ∫ y in (-M)..M, (ind TrapLoop.cast y - G y) = lo + ∫ y in lo..hi, (1 - G y) :=
+  shifted_bookkeeping G lo hi M hlh hM1 hM2 hM hG0 hG1 hint
 
 /-- **partial** — everything the stopping rule guarantees about what `average_tuning_curve` returns: trapezoid
-sums at a round `i > 3` at which every curve moved by less than `3·atol`.  Missing (and false, see
+sums at a round `i > 3` at which every curve moved by at most `3·atol`.  Missing (and false, see
 `stop_rule_not_a_bound`): `|T_i − ∫| ≤ 100·max(atol, 1e-6·scale)`. -/
 theorem navg_returns_trapezoid_partial {F : Fns ℝ} (hF : Lawful F) (d : Params ℝ) (ns : List ℝ) (mn : Option Bool)
     (atol : Option ℝ) (rounds : ℕ) (r : ℕ × List ℝ × List ℝ) (h : avgRunCapped F d ns mn atol rounds = some r) :
     3 < r.1 ∧
-      r.2.1 = ns.map (fun nn => Trap.trap (gCur F.n F.pow (cdf F d) (mn.getD d.convex) nn) (intLo F d) (intHi F d) r.1) ∧
-      ∀ nn ∈ ns, |Trap.trap (gCur F.n F.pow (cdf F d) (mn.getD d.convex) nn) (intLo F d) (intHi F d) r.1
-          - Trap.trap (gCur F.n F.pow (cdf F d) (mn.getD d.convex) nn) (intLo F d) (intHi F d) (r.1 - 1)|
-        < 3 * atolOf F d atol := avgRunCapped_spec hF d ns mn atol rounds r h
+      r.2.1 = ns.map (fun nn => Trap.trap (gRep F.n F.pow (cdf F d) (mn.getD d.convex) nn) (intLo F d) (intHi F d) r.1) ∧
+      ∀ nn ∈ ns, |Trap.trap (gRep F.n F.pow (cdf F d) (mn.getD d.convex) nn) (intLo F d) (intHi F d) r.1
+          - Trap.trap (gRep F.n F.pow (cdf F d) (mn.getD d.convex) nn) (intLo F d) (intHi F d) (r.1 - 1)|
+        ≤ 3 * atolOf F d atol := avgRunCapped_spec hF d ns mn atol rounds r h
+
+/-- the repair of F4 changed nothing where the legacy integrand was sound: when `0` is outside
+`(a − 6o, b + 6o]` the legacy value `max(0,lo) + min(0,hi) + T_i[1[y>0] − Fⁿ]` equals the code's
+`lo + T_i[1 − Fⁿ]` at every refinement level -/
+theorem navg_fix_conservative {F : Fns ℝ} (hF : Lawful F) (d : Params ℝ) (hab : d.a ≤ d.b)
+    (ho : 0 ≤ d.o) (m : Bool) (nn : ℝ) (i : ℕ) (h : 0 < intLo F d ∨ intHi F d ≤ 0) :
+    valueCur F.n F.pow (cdf F d) m nn (intLo F d) (intHi F d) i
+      = valueRep F.n F.pow (cdf F d) m nn (intLo F d) (intHi F d) i :=
+  avgCur_eq_avgRep_partial hF d hab ho m nn i h
 
 /-- **T5 (negative result)**: on the loop model itself (run by the kernel at `Rat`): a continuous piecewise-linear
 CDF on `[1,2]`, `n = 1`, default `atol = 1e-6·(hi−lo)`, for which the loop stops at round 4 although the value is
@@ -159,11 +172,22 @@ theorem stop_rule_witness_is_cdf :
       ∧ Witness.F 1 = 0 ∧ Witness.F 2 = 1 :=
   ⟨Witness.F_mono, Witness.F_range, by decide +kernel, by decide +kernel⟩
 
-/-- **F5 as a theorem of the model**: for the point mass `a = b`, `o = 0` and the default tolerance the loop never
-stops, whatever the round budget (`atol = 0`, `err ≥ 0`): the code doubles its arrays until memory runs out -/
-theorem navg_point_mass_never_stops {F : Fns ℝ} (hF : Lawful F) (d : Params ℝ) (hab : d.a = d.b) (ho : d.o = 0)
-    (ns : List ℝ) (mn : Option Bool) (rounds : ℕ) : avgRunCapped F d ns mn none rounds = none :=
-  avgRunCapped_pointMass_none hF d hab ho ns mn rounds
+/-- **the point mass returns** (F5 repaired): for `a = b`, `o = 0` and the default tolerance the loop stops at
+round 4 and `average_tuning_curve(ns)` is constantly `a` (for exponents with `0ⁿ = 0`, `1ⁿ = 1`) -/
+theorem navg_point_mass_returns {F : Fns ℝ} (hF : Lawful F) (d : Params ℝ) (hab : d.a = d.b) (ho : d.o = 0)
+    (ns : List ℝ) (mn : Option Bool) (hp0 : ∀ nn ∈ ns, F.pow 0 nn = 0) (hp1 : ∀ nn ∈ ns, F.pow 1 nn = 1) :
+    averageTuningCurve F d ns mn none = some (ns.map fun _ => d.a) :=
+  averageTuningCurve_pointMass hF d hab ho ns mn hp0 hp1
+
+/-- non-vacuity of the exponent hypotheses: the real instance (`pow = rpow`) satisfies them for every `n ≠ 0` -/
+example (T : List (ℕ × List (Noisy.Entry ℝ))) (nn : ℝ) (hn : nn ≠ 0) :
+    (Noisy.realFns T 0 0).pow 0 nn = 0 ∧ (Noisy.realFns T 0 0).pow 1 nn = 1 :=
+  ⟨Real.zero_rpow hn, Real.one_rpow nn⟩
+
+/-- a negative explicit tolerance can never be met: `IntegrationError` after the round budget -/
+theorem navg_negative_atol_fails {F : Fns ℝ} (hF : Lawful F) (d : Params ℝ) (ns : List ℝ) (mn : Option Bool)
+    (atol : ℝ) (hat : atol < 0) (rounds : ℕ) : avgRunCapped F d ns mn (some atol) rounds = none :=
+  avgRunCapped_neg_atol_none hF d ns mn atol hat rounds
 
 end loop
 
